@@ -194,7 +194,8 @@ func (s *handler) handleReader(ctx context.Context, r io.Reader, w io.Writer, rp
 	if bufferedRequest.Bytes()[0] == '[' && bufferedRequest.Bytes()[reqSize-1] == ']' {
 		var reqs []request
 
-		if err := json.NewDecoder(bufferedRequest).Decode(&reqs); err != nil {
+		// json.Unmarshal (unlike a Decoder) also rejects trailing data after the value
+		if err := json.Unmarshal(bufferedRequest.Bytes(), &reqs); err != nil {
 			rpcError(wf, nil, rpcParseError, xerrors.New("Parse error"))
 			return
 		}
@@ -239,7 +240,7 @@ func (s *handler) handleReader(ctx context.Context, r io.Reader, w io.Writer, rp
 		}
 	} else {
 		var req request
-		if err := json.NewDecoder(bufferedRequest).Decode(&req); err != nil {
+		if err := json.Unmarshal(bufferedRequest.Bytes(), &req); err != nil {
 			rpcError(wf, &req, rpcParseError, xerrors.New("Parse error"))
 			return
 		}
